@@ -1,4 +1,407 @@
-use explorer::Report;
-pub fn run(rep: Report) -> i32 {
+//! C30 Confidential discovery yields exactly the common topics.
+//!
+//! E-ENUM on the real `PsiHashDiscoveryProtocol` with the only address-book store the code base
+//! has (`SqliteStore`, in memory) and the crate's `TestSubscription`.  Both sides run as two futures
+//! joined on a current-thread runtime, connected by harness pipes (futures mpsc + a recording
+//! `Sink::with` stage) that keep every protocol message.  The protocol is a strict ping-pong (each
+//! side sends only after it received), so the interleaving of the two sides is unique; the
+//! enumerated dimensions are the inputs:
+//!   universe of 4 topics, all 16 x 16 subset pairs; address books with 3 further nodes whose topic
+//!   sets come from a menu; own topics registered in the own address book or not; restricted
+//!   sharing (`Config::share_nodes_with_common_topics`) on / off.
+//! Oracle: both results' `topics` = intersection; no serialised protocol message (CBOR as the
+//! stores/codecs use, and JSON for the human-readable serde path) contains a raw topic of either
+//! side, nor does any hashed-topic set; restricted mode: node ids sent by X are a subset of
+//! {X} + {nodes of X's book sharing a common topic}.  The per-session random salt halves only feed
+//! the hashes; no part of the oracle depends on their values.
+use std::cell::RefCell;
+use std::collections::{BTreeMap, BTreeSet, HashSet};
+use std::rc::Rc;
+use std::sync::atomic::{AtomicUsize, Ordering};
+use std::sync::Mutex;
+
+use explorer::{json, Report};
+use futures_channel::mpsc;
+use futures_util::{SinkExt, StreamExt};
+use p2panda_core::cbor::encode_cbor;
+use p2panda_core::{Hash, SigningKey, Topic, VerifyingKey};
+use p2panda_discovery::psi_hash::{Config, PsiHashDiscoveryProtocol, PsiHashMessage};
+use p2panda_discovery::test_utils::TestSubscription;
+use p2panda_discovery::DiscoveryProtocol;
+use p2panda_store::address_book::test_utils::{TestNodeId, TestNodeInfo, TestTransportInfo};
+use p2panda_store::address_book::AddressBookStore;
+use p2panda_store::{SqliteStore, Transaction};
+
+use crate::clock;
+
+type Msg = PsiHashMessage<TestNodeId, TestNodeInfo>;
+
+const UNIVERSE: usize = 4;
+
+fn topic(i: usize) -> Topic {
+    Topic::from(*Hash::digest(format!("c30 topic {i}")).as_bytes())
+}
+
+fn node(i: u8) -> VerifyingKey {
+    SigningKey::from_bytes(&[0x30 + i; 32]).verifying_key()
+}
+
+fn subset(mask: usize) -> Vec<usize> {
+    (0..UNIVERSE).filter(|i| mask & (1 << i) != 0).collect()
+}
+
+fn contains_window(hay: &[u8], needle: &[u8; 32]) -> bool {
+    hay.len() >= 32 && hay.windows(32).any(|w| w == needle)
+}
+
+#[derive(Clone)]
+struct Sent {
+    from_alice: bool,
+    variant: &'static str,
+    cbor: Vec<u8>,
+    json: String,
+    hashed: Vec<Topic>,
+    node_ids: Option<Vec<VerifyingKey>>,
+}
+
+fn record(from_alice: bool, m: &Msg) -> Sent {
+    let (variant, hashed, node_ids) = match m {
+        PsiHashMessage::AliceSaltHalf { .. } => ("AliceSaltHalf", vec![], None),
+        PsiHashMessage::BobSaltHalfAndHashedData { topics_for_alice, .. } => ("BobSaltHalfAndHashedData", topics_for_alice.iter().cloned().collect(), None),
+        PsiHashMessage::AliceHashedData { topics_for_bob } => ("AliceHashedData", topics_for_bob.iter().cloned().collect(), None),
+        PsiHashMessage::Nodes { transport_infos } => ("Nodes", vec![], Some(transport_infos.keys().cloned().collect())),
+    };
+    Sent {
+        from_alice,
+        variant,
+        cbor: encode_cbor(m).unwrap_or_default(),
+        json: serde_json::to_string(m).unwrap_or_default(),
+        hashed,
+        node_ids,
+    }
+}
+
+/// The topic sets (as masks) of the three further nodes in a book.
+#[derive(Clone, Debug)]
+struct Book {
+    others: [usize; 3],
+}
+
+async fn make_store(own: VerifyingKey, book: &Book) -> Result<SqliteStore, String> {
+    let store = SqliteStore::temporary().await;
+    let permit = store.begin().await.map_err(|e| e.to_string())?;
+    let mut info = TestNodeInfo::new(own);
+    info.transports = Some(TestTransportInfo::new("own"));
+    AddressBookStore::<TestNodeId, TestNodeInfo>::insert_node_info(&store, info).await.map_err(|e| e.to_string())?;
+    for (k, mask) in book.others.iter().enumerate() {
+        let id = node(2 + k as u8);
+        let mut info = TestNodeInfo::new(id);
+        info.transports = Some(TestTransportInfo::new(&format!("other-{k}")));
+        AddressBookStore::<TestNodeId, TestNodeInfo>::insert_node_info(&store, info).await.map_err(|e| e.to_string())?;
+        let ts: HashSet<Topic> = subset(*mask).into_iter().map(topic).collect();
+        AddressBookStore::<TestNodeId, TestNodeInfo>::set_topics(&store, id, ts).await.map_err(|e| e.to_string())?;
+    }
+    store.commit(permit).await.map_err(|e| e.to_string())?;
+    Ok(store)
+}
+
+async fn set_own_topics(store: &SqliteStore, own: VerifyingKey, mask: usize) -> Result<(), String> {
+    let permit = store.begin().await.map_err(|e| e.to_string())?;
+    let ts: HashSet<Topic> = subset(mask).into_iter().map(topic).collect();
+    AddressBookStore::<TestNodeId, TestNodeInfo>::set_topics(store, own, ts).await.map_err(|e| e.to_string())?;
+    store.commit(permit).await.map_err(|e| e.to_string())?;
+    Ok(())
+}
+
+#[derive(Default)]
+struct Part {
+    evals: u64,
+    transitions: u64,
+    nontrivial: u64,
+    restricted_nontrivial: u64,
+    outcomes: BTreeSet<String>,
+    violations: BTreeMap<String, (String, serde_json::Value, u64)>,
+    samples: Vec<serde_json::Value>,
+    machinery: Vec<String>,
+    states: BTreeSet<u64>,
+}
+
+impl Part {
+    fn violation(&mut self, key: String, what: String, replay: serde_json::Value) {
+        let e = self.violations.entry(key).or_insert((what.clone(), replay.clone(), 0));
+        e.2 += 1;
+        // keep the smallest description (deterministic across thread schedules)
+        if what < e.0 {
+            e.0 = what;
+            e.1 = replay;
+        }
+    }
+}
+
+struct Case {
+    book_idx: usize,
+    a_mask: usize,
+    b_mask: usize,
+    own_reg: bool,
+    restricted: bool,
+}
+
+async fn run_case(part: &mut Part, case: &Case, books: (&Book, &Book), stores: (&SqliteStore, &SqliteStore)) {
+    let (alice, bob) = (node(0), node(1));
+    let (a_store, b_store) = stores;
+    let replay = json!({"part": "case", "book": case.book_idx, "alice_topics": subset(case.a_mask), "bob_topics": subset(case.b_mask), "own_topics_in_book": case.own_reg, "restricted": case.restricted, "alice_book": books.0.others, "bob_book": books.1.others});
+    let desc = format!(
+        "alice topics {:?}, bob topics {:?}, alice book others {:?}, bob book others {:?}, own topics in own book: {}, share_nodes_with_common_topics: {}",
+        subset(case.a_mask), subset(case.b_mask),
+        books.0.others.iter().map(|m| subset(*m)).collect::<Vec<_>>(),
+        books.1.others.iter().map(|m| subset(*m)).collect::<Vec<_>>(),
+        case.own_reg, case.restricted
+    );
+    part.evals += 1;
+
+    let own_a = if case.own_reg { case.a_mask } else { 0 };
+    let own_b = if case.own_reg { case.b_mask } else { 0 };
+    if let Err(e) = set_own_topics(a_store, alice, own_a).await {
+        part.machinery.push(format!("set_topics: {e}"));
+        return;
+    }
+    if let Err(e) = set_own_topics(b_store, bob, own_b).await {
+        part.machinery.push(format!("set_topics: {e}"));
+        return;
+    }
+
+    let a_topics: HashSet<Topic> = subset(case.a_mask).into_iter().map(topic).collect();
+    let b_topics: HashSet<Topic> = subset(case.b_mask).into_iter().map(topic).collect();
+    let config = Config { share_nodes_with_common_topics: case.restricted };
+    let alice_protocol = PsiHashDiscoveryProtocol::<_, _, TestNodeId, TestNodeInfo>::with_config(a_store.clone(), TestSubscription { topics: a_topics.clone() }, alice, bob, config.clone());
+    let bob_protocol = PsiHashDiscoveryProtocol::<_, _, TestNodeId, TestNodeInfo>::with_config(b_store.clone(), TestSubscription { topics: b_topics.clone() }, bob, alice, config);
+
+    let log: Rc<RefCell<Vec<Sent>>> = Rc::new(RefCell::new(vec![]));
+    let (a_tx, a_out) = mpsc::channel::<Msg>(16);
+    let (b_tx, b_out) = mpsc::channel::<Msg>(16);
+    let la = log.clone();
+    let mut a_tx = a_tx.with(move |m: Msg| {
+        la.borrow_mut().push(record(true, &m));
+        futures_util::future::ready(Ok::<Msg, mpsc::SendError>(m))
+    });
+    let lb = log.clone();
+    let mut b_tx = b_tx.with(move |m: Msg| {
+        lb.borrow_mut().push(record(false, &m));
+        futures_util::future::ready(Ok::<Msg, mpsc::SendError>(m))
+    });
+    let mut a_in = b_out.map(Ok::<Msg, ()>);
+    let mut b_in = a_out.map(Ok::<Msg, ()>);
+    let (ra, rb) = futures_util::future::join(alice_protocol.alice(&mut a_tx, &mut a_in), bob_protocol.bob(&mut b_tx, &mut b_in)).await;
+    let log = log.borrow().clone();
+    part.transitions += log.len() as u64;
+
+    let inter_mask = case.a_mask & case.b_mask;
+    let expected: HashSet<Topic> = subset(inter_mask).into_iter().map(topic).collect();
+    let to_idx = |ts: &HashSet<Topic>| -> Vec<String> {
+        let mut v: Vec<String> = ts.iter().map(|t| (0..UNIVERSE).find(|i| topic(*i) == *t).map(|i| i.to_string()).unwrap_or_else(|| "foreign".into())).collect();
+        v.sort();
+        v
+    };
+
+    // (1) results
+    for (side, r) in [("alice", &ra), ("bob", &rb)] {
+        match r {
+            Ok(res) => {
+                if res.topics != expected {
+                    let missing = expected.difference(&res.topics).count();
+                    let extra = res.topics.difference(&expected).count();
+                    let class = match (missing > 0, extra > 0) {
+                        (true, true) => "missing-and-extra",
+                        (true, false) => "missing-common-topic",
+                        _ => "extra-topic",
+                    };
+                    part.violation(
+                        format!("topics/{side}-result/{class}"),
+                        format!("{side} obtained topics {:?}, the intersection is {:?}; {desc}", to_idx(&res.topics), subset(inter_mask)),
+                        replay.clone(),
+                    );
+                }
+            }
+            Err(e) => {
+                part.violation(format!("protocol-error/{side}"), format!("{side} failed with '{e}'; {desc}"), replay.clone());
+            }
+        }
+    }
+
+    // (2) no raw topic on the wire
+    let held: Vec<(usize, Topic)> = subset(case.a_mask | case.b_mask).into_iter().map(|i| (i, topic(i))).collect();
+    for s in &log {
+        for (i, t) in &held {
+            let who = if s.from_alice { "alice" } else { "bob" };
+            if contains_window(&s.cbor, t.as_bytes()) {
+                part.violation(format!("raw-topic-in-message/{}/cbor", s.variant), format!("the CBOR encoding of {who}'s {} message contains the raw bytes of topic {i}; {desc}", s.variant), replay.clone());
+            }
+            if s.json.contains(&t.to_string()) {
+                part.violation(format!("raw-topic-in-message/{}/json", s.variant), format!("the JSON encoding of {who}'s {} message contains topic {i} in hex; {desc}", s.variant), replay.clone());
+            }
+            if s.hashed.contains(t) {
+                part.violation(format!("raw-topic-in-message/{}/hashed-set", s.variant), format!("the hashed topic set in {who}'s {} message contains raw topic {i}; {desc}", s.variant), replay.clone());
+            }
+        }
+    }
+
+    // (3) node sharing
+    let mut sent_summary = vec![];
+    for (from_alice, me, book) in [(true, alice, books.0), (false, bob, books.1)] {
+        let who = if from_alice { "alice" } else { "bob" };
+        let Some(ids) = log.iter().find(|s| s.from_alice == from_alice && s.variant == "Nodes").and_then(|s| s.node_ids.clone()) else {
+            continue;
+        };
+        let mut allowed: BTreeSet<VerifyingKey> = BTreeSet::new();
+        allowed.insert(me);
+        for (k, mask) in book.others.iter().enumerate() {
+            if mask & inter_mask != 0 {
+                allowed.insert(node(2 + k as u8));
+            }
+        }
+        let leaked: Vec<String> = ids.iter().filter(|id| !allowed.contains(id)).map(|id| (0..5u8).find(|k| node(*k) == *id).map(|k| format!("node{k}")).unwrap_or_else(|| "unknown".into())).collect();
+        sent_summary.push(format!("{who}:{}/{}", ids.len(), allowed.len()));
+        if case.restricted {
+            if !leaked.is_empty() {
+                part.violation(
+                    format!("restricted-sharing/{who}-sent-node-without-common-topic"),
+                    format!("with share_nodes_with_common_topics = true {who} sent the transport info of {leaked:?} although none of them shares a topic of the intersection {:?}; {desc}", subset(inter_mask)),
+                    replay.clone(),
+                );
+            }
+            if allowed.len() < 4 && ids.iter().any(|id| *id != me) {
+                part.restricted_nontrivial += 1;
+            }
+        }
+        // the receiver's result must carry exactly what was sent
+        let got = if from_alice { rb.as_ref().ok() } else { ra.as_ref().ok() };
+        if let Some(res) = got {
+            let got_ids: Vec<VerifyingKey> = res.transport_infos.keys().cloned().collect();
+            if got_ids != ids {
+                part.machinery.push(format!("harness pipe altered the Nodes message of {who}; {desc}"));
+            }
+        }
+    }
+
+    let strict = inter_mask != 0 && inter_mask != case.a_mask && inter_mask != case.b_mask;
+    if strict {
+        part.nontrivial += 1;
+    }
+    part.outcomes.insert(format!("inter={} restricted={} sent={}", subset(inter_mask).len(), case.restricted, sent_summary.join(",")));
+    part.states.insert(explorer::h64(&(case.a_mask, case.b_mask, case.book_idx % 64, case.restricted, case.own_reg)));
+    if log.iter().any(|s| s.cbor.is_empty() || s.json.is_empty()) {
+        part.machinery.push(format!("a protocol message could not be serialised for the wire check; {desc}"));
+    }
+    let filtered = sent_summary.first().map(|s| s != "alice:1/1" && !s.ends_with("/4")).unwrap_or(false);
+    if strict && case.restricted && filtered && part.samples.len() < 2 && case.a_mask == 0b0111 && case.b_mask == 0b1110 {
+        part.samples.push(json!({
+            "alice_topics": subset(case.a_mask), "bob_topics": subset(case.b_mask), "intersection": subset(inter_mask),
+            "alice_book_others": books.0.others.iter().map(|m| subset(*m)).collect::<Vec<_>>(),
+            "bob_book_others": books.1.others.iter().map(|m| subset(*m)).collect::<Vec<_>>(),
+            "restricted": case.restricted, "own_topics_in_book": case.own_reg,
+            "nodes_sent/allowed": sent_summary,
+            "messages": log.iter().map(|s| format!("{}:{}({} bytes cbor)", if s.from_alice { "A" } else { "B" }, s.variant, s.cbor.len())).collect::<Vec<_>>(),
+        }));
+    }
+}
+
+pub fn run(mut rep: Report) -> i32 {
+    clock::freeze(1_800_000_000);
+    let thorough = rep.thorough();
+    // topic-set menu for the three further nodes of an address book (masks over the universe)
+    let menu: Vec<usize> = if thorough { vec![0b0000, 0b0001, 0b0011, 0b1100] } else { vec![0b0001, 0b1100] };
+    let m = menu.len();
+    let mut books: Vec<(Book, Book)> = vec![];
+    for code in 0..m.pow(3) {
+        let (x, y, z) = (menu[code % m], menu[(code / m) % m], menu[code / (m * m)]);
+        // bob's book: the same multiset, assigned to the nodes in reverse order
+        books.push((Book { others: [x, y, z] }, Book { others: [z, y, x] }));
+    }
+    rep.rule = format!(
+        "every pair of subsets of a {UNIVERSE}-topic universe (256) x {} address-book pairs (3 further nodes, topic sets from menu {:?}) x own topics registered in the own book (no/yes) x share_nodes_with_common_topics (off/on); non-trivial = intersection non-empty and a proper subset of both sides' sets",
+        books.len(), menu.iter().map(|m| subset(*m)).collect::<Vec<_>>()
+    );
+
+    let next = AtomicUsize::new(0);
+    let parts: Mutex<Vec<Part>> = Mutex::new(vec![]);
+    let threads = rep.args.threads.max(1).min(books.len());
+    std::thread::scope(|s| {
+        for _ in 0..threads {
+            s.spawn(|| {
+                let rt = tokio::runtime::Builder::new_current_thread().enable_time().build().expect("runtime");
+                let mut part = Part::default();
+                loop {
+                    let b = next.fetch_add(1, Ordering::SeqCst);
+                    if b >= books.len() {
+                        break;
+                    }
+                    let (ab, bb) = &books[b];
+                    rt.block_on(async {
+                        let (a_store, b_store) = match (make_store(node(0), ab).await, make_store(node(1), bb).await) {
+                            (Ok(a), Ok(b)) => (a, b),
+                            (Err(e), _) | (_, Err(e)) => {
+                                part.machinery.push(format!("address book setup: {e}"));
+                                return;
+                            }
+                        };
+                        for a_mask in 0..(1 << UNIVERSE) {
+                            for b_mask in 0..(1 << UNIVERSE) {
+                                for own_reg in [false, true] {
+                                    for restricted in [false, true] {
+                                        let case = Case { book_idx: b, a_mask, b_mask, own_reg, restricted };
+                                        run_case(&mut part, &case, (ab, bb), (&a_store, &b_store)).await;
+                                    }
+                                }
+                            }
+                        }
+                    });
+                }
+                parts.lock().unwrap().push(part);
+            });
+        }
+    });
+    clock::release();
+
+    let mut nontrivial = 0;
+    let mut restricted_nt = 0;
+    let mut samples = vec![];
+    let mut all_viol: BTreeMap<String, (String, serde_json::Value, u64)> = BTreeMap::new();
+    for part in parts.into_inner().unwrap() {
+        rep.evals(part.evals);
+        rep.transitions += part.transitions;
+        nontrivial += part.nontrivial;
+        restricted_nt += part.restricted_nontrivial;
+        for o in &part.outcomes {
+            rep.outcome(o);
+        }
+        for s in &part.states {
+            rep.state(s);
+        }
+        samples.extend(part.samples);
+        for m in part.machinery.into_iter().take(3) {
+            rep.machinery_error(m);
+        }
+        for (k, (what, replay, n)) in part.violations {
+            let e = all_viol.entry(k).or_insert((what.clone(), replay.clone(), 0));
+            e.2 += n;
+            if what < e.0 {
+                e.0 = what;
+                e.1 = replay;
+            }
+        }
+    }
+    rep.nontrivial_count(nontrivial);
+    rep.set("restricted_cases_where_a_filter_applied_and_a_foreign_node_was_sent", json!(restricted_nt));
+    samples.sort_by_key(|v| v.to_string());
+    for s in samples.into_iter().take(4) {
+        rep.sample(s);
+    }
+    rep.assume("the two 32-byte salt halves come from the thread RNG inside the protocol and cannot be owned; they only enter the BLAKE3 hashes, and no part of the oracle depends on their values (an accidental 32-byte collision with a topic has probability 2^-256 per window)");
+    rep.assume("the protocol is a strict ping-pong, so with any pipe capacity >= 1 there is exactly one interleaving of the two sides; the pipes are futures mpsc channels of capacity 16 with a recording stage");
+    rep.assume("wire encodings checked: CBOR (p2panda_core::cbor, non-human-readable serde path; p2panda-net's postcard codec writes the same raw byte strings) and JSON (human-readable path, topics in hex); postcard itself is not part of the harness lock file");
+    rep.assume("address book = the real SqliteStore (in memory); all further nodes are non-stale and have transport info; wall clock frozen (TestTransportInfo timestamps)");
+    for (k, (what, replay, n)) in all_viol {
+        rep.violation(k, format!("{what} [{n} cases]"), replay);
+    }
     rep.finish()
 }
